@@ -211,6 +211,8 @@ func runC17(c *Ctx) {
 	ruleLostReceiverWrite(c, p, "C17.receiver")
 	ruleHeaderEveryColumn(c, p, "C17.descriptor")
 	ruleVarintFastPath(c, p, "C17.varint")
+	ruleOpenCodes(c, p, "C17.open-codes")
+	ruleReadSizeUncapped(c, p, "C17.readsize")
 	ruleReadFull(c, p, "C17.readfull")
 	ruleVersionPassThrough(c, p, "C17.version-through")
 	ruleEnsureExact(c, p, "C17.ensure")
@@ -523,7 +525,47 @@ func rulePrims(c *Ctx, p *core.Program) {
 	// uvarint pair
 	puv := p.Method(core.PkgProto, "Buffer", "PutUVarInt")
 	guv := p.Method(core.PkgProto, "Reader", "UVarInt")
-	if puv != nil && guv != nil &&
+	// the encoder proper may be a package-local appender that PutUVarInt (and PutString) call
+	var uvHelper *ssa.Function
+	isPutUvarint := func(f *types.Func) bool {
+		return core.IsFunc(f, "encoding/binary", "PutUvarint") || core.IsFunc(f, "encoding/binary", "AppendUvarint")
+	}
+	if puv != nil && !core.ReachesCallee(puv, isPutUvarint, 0) {
+		for _, call := range core.Calls(puv) {
+			cl, isC := call.(*ssa.Call)
+			g := core.StaticFn(call)
+			if !isC || g == nil || g.Blocks == nil || !core.ReachesCallee(g, isPutUvarint, 0) {
+				continue
+			}
+			if _, ok := appendBaseOf(cl); !ok {
+				continue
+			}
+			// the helper appends nothing but the uvarint bytes
+			only := true
+			for _, c2 := range core.Calls(g) {
+				if bi, ok := c2.Common().Value.(*ssa.Builtin); ok && bi.Name() == "append" {
+					if len(c2.Common().Args) < 2 || !isUvarintSlice(c2.Common().Args[1]) {
+						only = false
+					}
+				}
+			}
+			// and PutUVarInt stores nothing else
+			for _, b := range puv.Blocks {
+				for _, in := range b.Instrs {
+					if st, ok := in.(*ssa.Store); ok && isBufAddr(st.Addr) && st.Val != ssa.Value(cl) {
+						only = false
+					}
+				}
+			}
+			if only {
+				uvHelper = g
+			}
+		}
+	}
+	if puv != nil && guv != nil && uvHelper != nil &&
+		core.ReachesCallee(guv, func(f *types.Func) bool { return core.IsFunc(f, "encoding/binary", "ReadUvarint") }, 0) {
+		c.R.Ok(rule, "prim/UVarInt", cfg, p.Pos(puv.Pos()), "binary.PutUvarint through the appender "+uvHelper.Name()+" / binary.ReadUvarint, no other append")
+	} else if puv != nil && guv != nil &&
 		core.ReachesCallee(puv, func(f *types.Func) bool { return core.IsFunc(f, "encoding/binary", "PutUvarint") }, 0) &&
 		core.ReachesCallee(guv, func(f *types.Func) bool { return core.IsFunc(f, "encoding/binary", "ReadUvarint") }, 0) {
 		// and nothing else is ever appended by PutUVarInt (no hand-written fast path)
@@ -561,7 +603,9 @@ func rulePrims(c *Ctx, p *core.Program) {
 	ps := p.Method(core.PkgProto, "Buffer", "PutString")
 	sr := p.Method(core.PkgProto, "Reader", "StrRaw")
 	if ps != nil && sr != nil &&
-		core.ReachesCallee(ps, func(f *types.Func) bool { return core.IsMethod(f, core.PkgProto, "Buffer", "PutUVarInt") }, 3) &&
+		core.ReachesCallee(ps, func(f *types.Func) bool {
+			return core.IsMethod(f, core.PkgProto, "Buffer", "PutUVarInt") || uvHelper != nil && f == uvHelper.Object()
+		}, 3) &&
 		core.ReachesCallee(sr, func(f *types.Func) bool { return core.IsMethod(f, core.PkgProto, "Reader", "UVarInt") }, 3) &&
 		core.ReachesCallee(sr, func(f *types.Func) bool { return core.IsFunc(f, "io", "ReadFull") }, 3) {
 		c.R.Ok(rule, "prim/Str", cfg, p.Pos(ps.Pos()), "uvarint length + bytes / uvarint length + ReadFull")
@@ -1573,5 +1617,79 @@ func ruleVarintFastPath(c *Ctx, p *core.Program, rule string) {
 		}
 	}
 	c.R.Count("uvarint encoders["+cfg+"]", n)
+	c.R.Floor(rule, cfg, n, 1)
+}
+
+// ruleOpenCodes (C17 / C03): exception codes are an open set.
+func ruleOpenCodes(c *Ctx, p *core.Program, rule string) {
+	c.R.Rule(rule, "nothing reachable from Exception.DecodeAware or Client.exception tests an exception code for membership in the library's table of known codes (Error.IsAError, the generated name table): the table is a subset of the server's codes and every server release adds new ones, the encoder writes any int32 - a decoder that rejects unknown codes turns a server exception into a protocol error and leaves the rest of the packet unread")
+	cfg := p.Cfg.Name
+	roots := []*ssa.Function{p.Method(core.PkgProto, "Exception", "DecodeAware"), p.Method(core.PkgCh, "Client", "exception")}
+	n := 0
+	bad := false
+	seen := map[*ssa.Function]bool{}
+	for _, root := range roots {
+		if root == nil {
+			continue
+		}
+		for fn := range core.StaticReach(root, 2) {
+			if fn.Blocks == nil || seen[fn] || pkgOf(fn) == nil || (pkgOf(fn).Path() != core.PkgProto && pkgOf(fn).Path() != core.PkgCh) {
+				continue
+			}
+			seen[fn] = true
+			n++
+			for _, call := range core.Calls(fn) {
+				if f := core.CalleeFunc(call); f != nil && core.IsMethod(f, core.PkgProto, "Error", "IsAError") {
+					bad = true
+					c.R.Bad(rule, core.CallKey(fn, call), cfg, p.Pos(call.Pos()), "an exception code is validated against the library's table of known codes while decoding: a code the table does not list (newer server) is refused")
+				}
+			}
+		}
+	}
+	if !c.must(p, "Exception.DecodeAware / Client.exception", n > 0) {
+		return
+	}
+	if !bad {
+		c.R.Ok(rule, "exception-decoders", cfg, "", sprintf("%d functions on the exception decode path, none tests table membership", n))
+	}
+}
+
+// ruleReadSizeUncapped (C15 / C17): the raw read primitive is not bounded by a row limit.
+func ruleReadSizeUncapped(c *Ctx, p *core.Program, rule string) {
+	c.R.Rule(rule, "Reader.readFull and Reader.ReadRaw put no constant upper bound below 2^31-1 on the byte count they are asked for: the pure-Go decoders fetch a whole column with ReadRaw(rows*size), so the row-count limit (100,000,000) applied to bytes refuses a 100 MB column that the default build decodes")
+	cfg := p.Cfg.Name
+	n := 0
+	for _, name := range []string{"readFull", "ReadRaw"} {
+		fn := p.Method(core.PkgProto, "Reader", name)
+		if fn == nil || fn.Blocks == nil || len(fn.Params) < 2 {
+			continue
+		}
+		size := fn.Params[1]
+		var use ssa.Instruction
+		for _, call := range core.Calls(fn) {
+			for _, a := range call.Common().Args {
+				if stripConv(a) == ssa.Value(size) && use == nil {
+					use = call.(ssa.Instruction)
+				}
+			}
+		}
+		if use == nil {
+			continue
+		}
+		n++
+		key := core.FuncName(fn)
+		lims := upperLimits(fn, size, use)
+		bad := false
+		for _, k := range lims {
+			if k < 1<<31-1 {
+				bad = true
+				c.R.Bad(rule, key, cfg, p.Pos(use.Pos()), sprintf("read sizes above %d bytes are refused", k))
+			}
+		}
+		if !bad {
+			c.R.Ok(rule, key, cfg, p.Pos(use.Pos()), "no constant upper bound on the requested size")
+		}
+	}
+	c.R.Count("raw read primitives", n)
 	c.R.Floor(rule, cfg, n, 1)
 }
